@@ -205,6 +205,12 @@ pub fn generate_c16(rng: &mut Rng, idx: usize, _tier: Tier) -> CaseOut {
             ext.push((upper.clone(), suffix.to_string()));
             (format!("x.{upper}"), true)
         }
+        7 if idx % 2 == 0 => {
+            // -E maps a REGISTERED suffix onto a different grammar: the mapping wins
+            let other = all_suffixes[(idx / 16 * 7 + 3) % all_suffixes.len()].0;
+            ext.push((suffix.to_string(), other.to_string()));
+            (if whole_name || compound { suffix.to_string() } else { format!("x.{suffix}") }, true)
+        }
         _ => (format!("x{suffix}"), false), // no dot: the suffix is just the tail of a longer name
     };
     // a longer name whose tail happens to be registered on its own (e.g. "xc" is not, but "xgo.mod" ends with ".mod")
@@ -214,7 +220,11 @@ pub fn generate_c16(rng: &mut Rng, idx: usize, _tier: Tier) -> CaseOut {
     let (text, blocks) = if expected_family.is_some() {
         // content in the comment syntax of the grammar the name selects
         let fam = expected_family.unwrap();
-        let l2: &'static Lang = if fam == lang.family { lang } else { all_langs.iter().find(|l| l.family == fam).copied().unwrap_or(lang) };
+        // the language whose grammar the (possibly remapped) suffix selects
+        let target = ext.first().map(|(_, v)| v.as_str()).unwrap_or(suffix);
+        let l2: &'static Lang = all_suffixes.iter().find(|(s, _)| *s == target).map(|(_, l)| *l)
+            .filter(|l| l.family == fam)
+            .unwrap_or_else(|| if fam == lang.family { lang } else { all_langs.iter().find(|l| l.family == fam).copied().unwrap_or(lang) });
         one_block_file(l2, rng, "n", false)
     } else {
         // skipped silently whatever it contains: unbalanced tags in every comment syntax
